@@ -90,7 +90,7 @@ def gen_case(run_seed: int, index: int, tier: str) -> dict:
     samples = []
     try:
         if kind in ("encoder", "decoder_hard", "decoder_soft"):
-            enc = C.private(C.build_encoder(comp["code"]))
+            enc = C.private_encoder(comp["code"])
             n, k = enc.code_length, enc.code_dimension
             if kind != "encoder":
                 kinds = C.decoder_kinds(comp["code"], enc, kind == "decoder_soft")
@@ -206,10 +206,11 @@ def _component(comp, fresh=False, via=None, base=None):
     """returns (callable tensor->tensor, class name); `via` applies a neutral transformation to the object first"""
     f, name, obj = _component_obj(comp, fresh, obj=base)
     if fresh and isinstance(obj, torch.nn.Module) and base is None:
-        import copy as _copy
-
-        obj = _copy.deepcopy(obj)  # never call a per-process prototype directly
-        f, name, obj = _component_obj(comp, obj=obj)
+        try:
+            obj = C.private(obj)  # never call a per-process prototype directly
+            f, name, obj = _component_obj(comp, obj=obj)
+        except Exception:
+            pass  # not deep-copyable: _component_obj(fresh=True) already built a new object for the cheap kinds
     if via and isinstance(obj, torch.nn.Module):
         import copy as _copy
 
@@ -370,10 +371,13 @@ def execute(case: dict) -> RunResult:
     try:
         # hermetic: the case's "shared instance" is a private deep copy of the (never called) per-process prototype,
         # so nothing an earlier case did to an object can leak into this one and the case alone reproduces its outcome
-        import copy as _copy
-
         _, cname, proto = _component_obj(comp)
-        shared = _copy.deepcopy(proto) if isinstance(proto, torch.nn.Module) else proto
+        if comp["kind"] == "encoder":
+            shared = C.private_encoder(comp["code"])
+        elif comp["kind"] in ("decoder_hard", "decoder_soft"):
+            shared = C.private_decoder(comp["code"], comp["decoder"], comp.get("dec_opts"))
+        else:
+            shared = C.private(proto)
         fn, _, _ = _component_obj(comp, obj=shared)
     except C.Inadmissible:
         res.inadmissible = True
